@@ -1,7 +1,7 @@
 //! C07: the sliding window over its four storage back-ends, the real ones.
 //!
 //! `case <id> <kind> <size> <cap|multiple> <ty>` with kind ∈ arr | vec (alias vecfix) | uarr | uvec (the last two only in the
-//! `unsafe_impl` build) and ty ∈ u8 | u32 | u64. The array storages are const-generic, so they come from a fixed menu
+//! `unsafe_impl` build) and ty ∈ u8 | u32 | u64 | w12 | w24 (12- and 24-byte elements). The array storages are const-generic, so they come from a fixed menu
 //! of (SIZE, CAPACITY) instantiations (sizes 1…9, every capacity N+1 … 3N, plus a few malformed ones).
 //!
 //! ops: `push <v>` (answers with the full observation after the push), `obs`, and the single accessors
@@ -18,6 +18,48 @@ pub trait Elem: PartialEq + Copy + Default + Display + FromStr + 'static {}
 impl Elem for u8 {}
 impl Elem for u32 {}
 impl Elem for u64 {}
+
+/// element types whose size does not divide 16 (the unsafe array storage copies in 16-byte chunks plus a remainder): a
+/// value `v` is stored as (v, v+1, v+2); a torn or partially copied element prints as `corrupt:…`
+#[derive(PartialEq, Copy, Clone, Default)]
+pub struct W12(u32, u32, u32);
+#[derive(PartialEq, Copy, Clone, Default)]
+pub struct W24([u64; 3]);
+impl Display for W12 {
+    fn fmt(&self, f: &mut std::fmt::Formatter<'_>) -> std::fmt::Result {
+        if (self.0 == 0 && self.1 == 0 && self.2 == 0) || (self.1 == self.0.wrapping_add(1) && self.2 == self.0.wrapping_add(2)) {
+            write!(f, "{}", self.0)
+        } else {
+            write!(f, "corrupt:{}/{}/{}", self.0, self.1, self.2)
+        }
+    }
+}
+impl FromStr for W12 {
+    type Err = std::num::ParseIntError;
+    fn from_str(s: &str) -> Result<Self, Self::Err> {
+        let v: u32 = s.parse()?;
+        Ok(if v == 0 { W12(0, 0, 0) } else { W12(v, v.wrapping_add(1), v.wrapping_add(2)) })
+    }
+}
+impl Display for W24 {
+    fn fmt(&self, f: &mut std::fmt::Formatter<'_>) -> std::fmt::Result {
+        let a = self.0;
+        if (a[0] == 0 && a[1] == 0 && a[2] == 0) || (a[1] == a[0].wrapping_add(1) && a[2] == a[0].wrapping_add(2)) {
+            write!(f, "{}", a[0])
+        } else {
+            write!(f, "corrupt:{}/{}/{}", a[0], a[1], a[2])
+        }
+    }
+}
+impl FromStr for W24 {
+    type Err = std::num::ParseIntError;
+    fn from_str(s: &str) -> Result<Self, Self::Err> {
+        let v: u64 = s.parse()?;
+        Ok(if v == 0 { W24([0, 0, 0]) } else { W24([v, v.wrapping_add(1), v.wrapping_add(2)]) })
+    }
+}
+impl Elem for W12 {}
+impl Elem for W24 {}
 
 fn list<T: Display>(xs: &[T]) -> String {
     if xs.is_empty() {
@@ -213,6 +255,8 @@ impl Interp for C07 {
             "u8" => mk::<u8>(kind, size, c),
             "u32" => mk::<u32>(kind, size, c),
             "u64" => mk::<u64>(kind, size, c),
+            "w12" => mk::<W12>(kind, size, c),
+            "w24" => mk::<W24>(kind, size, c),
             _ => None,
         };
         if self.win.is_some() { "ok".into() } else { "unsupported".into() }
